@@ -15,6 +15,7 @@ pub mod c10;
 pub mod c11;
 pub mod c12;
 pub mod c16;
+pub mod c17;
 pub mod c18;
 pub mod c19;
 pub mod quire;
@@ -35,6 +36,7 @@ pub static ALL: &[(&str, RunFn, ReplayFn)] = &[
     ("C10", c10::run, c10::replay),
     ("C11", c11::run, c11::replay),
     ("C12", c12::run, c12::replay),
+    ("C17", c17::run, c17::replay),
     ("C18", c18::run, c18::replay),
     ("C19", c19::run, c19::replay),
 ];
